@@ -24,6 +24,8 @@ def _scope_dict(fn: ast.AST) -> Optional[ast.Dict]:
 
 
 def run(ctx: Ctx) -> None:
+    if getattr(ctx, "_depth", 0) >= 2:
+        return  # alias of an alias: not followed (breaks import cycles between rule modules)
     repo = ctx.repo
     ctx.rule("C01.R1", "exactly one application is started per accepted request: one spawn_app call site per stream class, in the Request arm, guarded only by the server-name / handshake checks, with (app, config, scope, app_send)", floor=2)
     ctx.rule("C01.R2", "protocol -> Request event provenance: method, raw_path, http_version, headers, state each derive from the right field of the h11 / h2 request", floor=10)
@@ -228,6 +230,29 @@ def run(ctx: Ctx) -> None:
     q = [n for n in walk_local(t) if isinstance(n, ast.Assign) and isinstance(n.targets[0], ast.Tuple) and [norm(e) for e in n.targets[0].elts] == ["app_send_channel", "app_receive_channel"]]
     ok = len(q) == 1 and "open_memory_channel" in norm(q[0].value) and norm(q[0].value.args[0]) == "config.max_app_queue_size" and "app_receive_channel.receive" in norm(t) and norm([n for n in walk_local(t) if isinstance(n, ast.Return)][0].value) == "app_send_channel.send"
     ctx.check("C01.R8", "trio.task_group:TaskGroup.spawn_app", "open_memory_channel(config.max_app_queue_size): send returned, receive given to the app", ok, "request messages must travel through one bounded FIFO channel", t)
+
+    # ---------- R15: every chunk that was read is delivered
+    ctx.rule("C01.R15", "both read loops hand every successfully read chunk to the protocol: between the read and protocol.handle(RawData(data)) there is no test that could skip it (an EOF / emptiness test belongs after the delivery)", floor=2)
+    for mod_, read_call in (("asyncio.tcp_server", "self.reader.read"), ("trio.tcp_server", "self.stream.receive_some")):
+        rdf = repo.func(mod_, "TCPServer._read_data")
+        gr = CFG(rdf)
+        rn = gr.where(has_call(read_call))
+        hn_ = gr.where(has_stmt(lambda n: isinstance(n, ast.Call) and call_name(n) == "self.protocol.handle" and "RawData" in norm(n)))
+        okr = len(rn) >= 1 and len(hn_) == 1
+        skipping = None
+        if okr:
+            seen_, todo = set(), [m for m, lab in gr.succ[rn[-1]] if lab not in ("exc", "uncaught", "catch")]
+            while todo:
+                cur = todo.pop()
+                if cur in seen_ or cur == hn_[0]:
+                    continue
+                seen_.add(cur)
+                nd = gr.node(cur)
+                if nd.kind == "test" and skipping is None:
+                    skipping = nd
+                todo += [m for m, lab in gr.succ[cur] if lab not in ("exc", "uncaught", "catch")]
+            okr = skipping is None and hn_[0] in {m for c_ in (seen_ | {rn[-1]}) for m, _ in gr.succ[c_]}
+        ctx.check("C01.R15", f"{mod_}:TCPServer._read_data", "read -> protocol.handle(RawData(data)) with no test in between", bool(okr), "a test between the read and the delivery (e.g. at_eof() checked after the read) can drop a chunk that arrived together with the client's FIN: the request body is truncated and never completed", skipping.ast if skipping is not None else rdf)
 
     # ---------- R14 (addresses)
     ctx.rule("C01.R14", "scope client/server are (host, port) pairs: parse_socket_addr maps an AF_INET sockaddr to itself, an AF_INET6 4-tuple to its first two fields and anything else to None (decision table, interpreted); both workers feed it the socket's family and getpeername/getsockname", floor=3)
